@@ -26,11 +26,17 @@ Definition fileid_eqb (a b : fileid) : bool :=
 Definition fid_key (f : fileid) : option N :=
   match f with Fid _ k _ => Some k | BadFid _ => None end.
 
-(* Go's int(x) for a uint64 x: values from 2^63 on are negative.
-   [len(data) >= int(minSize)] is therefore true for every minSize >= 2^63. *)
-Definition two63 : N := 9223372036854775808.
+(* Go's int(x) for a uint64 x: values from 2^63 on would be negative.  Since the
+   repair (commit b3a266ba) doGetChunk / doGetChunkSlice return nil before any such
+   conversion: [too_big] / [slice_guard] below; behind them int(x) = x. *)
+Definition two63 : N := 9223372036854775808.   (* math.MaxInt64 + 1 *)
 Definition two64 : N := 18446744073709551616.
-Definition ge_int (len m : N) : bool := (two63 <=? m) || (m <=? len).
+(* doGetChunk: minSize > math.MaxInt64 *)
+Definition too_big (m : N) : bool := two63 <=? m.
+(* doGetChunkSlice: minSize := offset + length (uint64, wraps);
+   minSize < offset || minSize > math.MaxInt64 *)
+Definition slice_guard (off len : N) : bool :=
+  let m := (off + len) mod two64 in (m <? off) || (two63 <=? m).
 
 (* NewTieredChunkCache(maxEntries, dir, diskSizeInUnit, unitSize) *)
 Record params := { unit_size : N; disk_units : N }.
@@ -109,8 +115,9 @@ Fixpoint layer_get (l : layer) (key : N) : bytes :=
 
 (* getNeedleSlice / ChunkCacheInMemory.getChunkSlice:
    wanted = min(int(length), size - int(offset)); negative => error.
-   Modelled for offsets below 2^63 (int(offset) = offset); a length from 2^63 on
-   is a negative int(length). *)
+   Only reached behind [slice_guard], i.e. with offset and length below 2^63
+   (int(offset) = offset); the first test (a negative int(length)) is kept so that
+   the function is total on N, it is dead behind the guard. *)
 Definition slice (d : bytes) (off len : N) : option bytes :=
   if two63 <=? len then None
   else if blen d <? off then None
@@ -151,96 +158,44 @@ Definition store (p : params) (st : state) (f : fileid) (d : bytes) : state :=
 
 (* doGetChunk with the memory tier answering [memd] (None = evicted / never stored) *)
 Definition get_with (p : params) (st : state) (memd : option bytes) (f : fileid) (m : N) : bytes :=
+  if too_big m then [] else
   let md := match memd with Some d => d | None => [] end in
-  if (m <=? limit0 p) && ge_int (blen md) m then md else
+  if (m <=? limit0 p) && (m <=? blen md) then md else
   match fid_key f with
   | None => []
   | Some k =>
       let d0 := layer_get (l0 st) k in
-      if (m <=? limit0 p) && ge_int (blen d0) m then d0 else
+      if (m <=? limit0 p) && (m <=? blen d0) then d0 else
       let d1 := layer_get (l1 st) k in
-      if (m <=? limit1 p) && ge_int (blen d1) m then d1 else
+      if (m <=? limit1 p) && (m <=? blen d1) then d1 else
       let d2 := layer_get (l2 st) k in
-      if ge_int (blen d2) m then d2 else []
+      if m <=? blen d2 then d2 else []
   end.
 
-(* doGetChunkSlice (offset below 2^63, so offset + length does not wrap unless
-   length >= 2^63, in which case every slice is an error and the answer is empty) *)
+(* doGetChunkSlice behind the guard: offset + length did not wrap and is below 2^63 *)
 Definition get_slice_small (p : params) (st : state) (memd : option bytes) (f : fileid) (off len : N) : bytes :=
   let m := off + len in
   let md := match memd with
             | Some d => match slice d off len with Some x => x | None => [] end
             | None => []
             end in
-  if (m <=? limit0 p) && ge_int (blen md) m then md else
+  if (m <=? limit0 p) && (m <=? blen md) then md else
   match fid_key f with
   | None => []
   | Some k =>
       let d0 := layer_get_slice (l0 st) k off len in
-      if (m <=? limit0 p) && ge_int (blen d0) m then d0 else
+      if (m <=? limit0 p) && (m <=? blen d0) then d0 else
       let d1 := layer_get_slice (l1 st) k off len in
-      if (m <=? limit1 p) && ge_int (blen d1) m then d1 else
+      if (m <=? limit1 p) && (m <=? blen d1) then d1 else
       let d2 := layer_get_slice (l2 st) k off len in
-      if ge_int (blen d2) m then d2 else []
+      if m <=? blen d2 then d2 else []
   end.
 
-(* ---------- GetChunkSlice with an offset from 2^63 on ---------- *)
-(* int(offset) = offset - 2^64 = -e.  The memory tier computes
-   data[offset : int(offset)+wanted] and panics; a disk segment reads [wanted] bytes
-   at file position (needle offset - e), i.e. IN FRONT of the needle.  An answer
-   [panic_mark] (not a byte string: 256) stands for the run-time panic. *)
-Definition panic_mark : bytes := [256].
-
-Fixpoint zeros (n : nat) : bytes := match n with O => [] | S n' => 0 :: zeros n' end.
-Definition padded (d : bytes) : bytes := d ++ zeros (N.to_nat (pad8 (blen d) - blen d)).
-(* the bytes of the segment's .dat file: every needle written since the last reset, padded *)
-Definition seg_dat (s : segment) : bytes :=
-  fold_right (fun r acc => acc ++ padded (r_data r)) [] (sg_recs s).
-
-Definition seg_get_wild (s : segment) (key e len : N) : option bytes :=
-  match seg_find (sg_recs s) key with
-  | Some r =>
-      if r_valid r then
-        if two63 <=? len then None                         (* int(length) < 0: wanted < 0 *)
-        else if two63 <=? blen (r_data r) + e then None    (* size - int(offset) wraps to < 0 *)
-        else
-          let wanted := N.min len (blen (r_data r) + e) in
-          if r_off r <? e then None                        (* ReadAt at a negative position *)
-          else if sg_size s <? r_off r - e + wanted then None   (* short read: EOF *)
-          else Some (firstn (N.to_nat wanted) (skipn (N.to_nat (r_off r - e)) (seg_dat s)))
-      else None
-  | None => None
-  end.
-
-Fixpoint layer_get_slice_wild (l : layer) (key e len : N) : bytes :=
-  match l with
-  | [] => []
-  | s :: l' => match seg_get_wild s key e len with
-               | Some x => if is_empty x then layer_get_slice_wild l' key e len else x
-               | None => layer_get_slice_wild l' key e len
-               end
-  end.
-
-Definition get_slice_wild (p : params) (st : state) (memd : option bytes) (f : fileid) (off len : N) : bytes :=
-  let e := two64 - off in
-  let m := (off + len) mod two64 in          (* minSize := offset + length wraps *)
-  if (m <=? limit0 p) && (len <? two63) &&
-     (match memd with Some d => blen d + e <? two63 | None => false end)   (* else: wanted < 0, an error *)
-  then panic_mark else
-  if (m <=? limit0 p) && ge_int 0 m then [] else
-  match fid_key f with
-  | None => []
-  | Some k =>
-      let d0 := layer_get_slice_wild (l0 st) k e len in
-      if (m <=? limit0 p) && ge_int (blen d0) m then d0 else
-      let d1 := layer_get_slice_wild (l1 st) k e len in
-      if (m <=? limit1 p) && ge_int (blen d1) m then d1 else
-      let d2 := layer_get_slice_wild (l2 st) k e len in
-      if ge_int (blen d2) m then d2 else []
-  end.
-
+(* doGetChunkSlice: a lookup whose offset + length overflows or is 2^63 or more
+   misses in every tier (before the repair: int(offset) negative, a panic in the
+   memory tier and bytes in front of the chunk from a disk tier) *)
 Definition get_slice_with (p : params) (st : state) (memd : option bytes) (f : fileid) (off len : N) : bytes :=
-  if two63 <=? off then get_slice_wild p st memd f off len else get_slice_small p st memd f off len.
+  if slice_guard off len then [] else get_slice_small p st memd f off len.
 
 (* the memory tier is a ccache LRU: an entry may have been dropped at any time.
    The answers the model admits: with the entry evicted, and with it present. *)
@@ -316,9 +271,7 @@ Fixpoint run (p : params) (st : state) (ops : list op) : list (list bytes) :=
   end.
 
 (* well-formed inputs of the correspondence check: the order of a restart is a
-   permutation of the layer's file numbers, sizes and offsets are uint64 values;
-   with an offset from 2^63 on the length is small or >= 2^63 (make([]byte, wanted)
-   for a huge [wanted] is not modelled) *)
+   permutation of the layer's file numbers, sizes and offsets are uint64 values *)
 Definition order_ok (n : nat) (order : list (N * bool)) : bool :=
   Nat.eqb (List.length order) n &&
   forallb (fun i => existsb (fun e => fst e =? N.of_nat i) order) (seq 0 n).
@@ -326,8 +279,7 @@ Definition op_ok (o : op) : bool :=
   match o with
   | Store _ _ => true
   | Get _ m => m <? two64
-  | GetSlice _ off len => (off <? two64) && (len <? two64) &&
-                          (if two63 <=? off then (len <? 65536) || (two63 <=? len) else true)
+  | GetSlice _ off len => (off <? two64) && (len <? two64)
   | Restart a b c => order_ok 2 a && order_ok 3 b && order_ok 2 c
   end.
 Definition hist_ok (ops : list op) : bool := forallb op_ok ops.
@@ -411,44 +363,20 @@ Definition same_key (g f : fileid) : bool :=
   end.
 Definition related (g f : fileid) : bool := fileid_eqb g f || same_key g f.
 
-(* a minimum size (offset + length) from 2^63 on is a negative int: the length test
-   passes for every cached chunk *)
-Definition op_big (o : op) : bool :=
-  match o with
-  | Get _ m => two63 <=? m
-  | GetSlice _ off len => two63 <=? off + len
-  | _ => false
-  end.
-(* an offset from 2^63 on: panic or bytes in front of the needle (finding 2) *)
-Definition op_wild (o : op) : bool :=
-  match o with
-  | GetSlice _ off _ => two63 <=? off
-  | _ => false
-  end.
-Definition expected_any (o : op) (d : bytes) : option bytes :=
-  if op_big o then
-    match o with
-    | Get _ _ => Some d
-    | GetSlice _ off len => slice d off len
-    | _ => None
-    end
-  else expected o d.
-
-Definition allowed_by (rel : fileid -> fileid -> bool) (exp : op -> bytes -> option bytes)
+Definition allowed_by (rel : fileid -> fileid -> bool)
                       (stored : list (fileid * bytes)) (o : op) (r : bytes) : bool :=
   match op_fid o with
   | Some f => existsb (fun fd => rel (fst fd) f &&
-                                 match exp o (snd fd) with Some x => bytes_eqb x r | None => false end) stored
+                                 match expected o (snd fd) with Some x => bytes_eqb x r | None => false end) stored
   | None => false
   end.
 
 (* [r] is nothing, or what an earlier store for a file id WITH THE SAME NEEDLE KEY
-   (or the same file id) allows; for a minimum size below 2^63 "allows" is the
-   property's [expected]; nothing is claimed for a slice offset from 2^63 on *)
+   (or the same file id) allows; "allows" is the property's [expected] *)
 Definition explained : pred := fun stored o r =>
-  is_empty r || allowed_by related expected_any stored o r || op_wild o.
+  is_empty r || allowed_by related stored o r.
 
-(* the three known ways an answer fails [transparent_answer] *)
+(* the one known way an answer fails [transparent_answer] *)
 Definition key_clash (a b : fileid) : bool :=
   match fid_key a, fid_key b with
   | Some k, Some k' => (k =? k') && negb (fileid_eqb a b)
@@ -456,11 +384,7 @@ Definition key_clash (a b : fileid) : bool :=
   end.
 (* finding 0 at one lookup: the answer is what a store for ANOTHER file id with the
    same needle key allows *)
-Definition alias_answer : pred := fun stored o r => negb (op_big o) && allowed_by key_clash expected stored o r.
-(* finding 1 at one lookup: minimum size from 2^63 on, answer shorter than that *)
-Definition big_answer : pred := fun stored o r => op_big o && negb (op_wild o) && explained stored o r.
-(* finding 2 at one lookup: slice offset from 2^63 on *)
-Definition wild_answer : pred := fun stored o r => op_wild o.
+Definition alias_answer : pred := fun stored o r => allowed_by key_clash stored o r.
 
 (* a store for another file id with the same needle key precedes the lookup *)
 Definition alias_before (stored : list (fileid * bytes)) (o : op) : bool :=
@@ -469,23 +393,20 @@ Definition alias_before (stored : list (fileid * bytes)) (o : op) : bool :=
   | None => false
   end.
 Definition step_clean (stored : list (fileid * bytes)) (o : op) : bool :=
-  negb (alias_before stored o) && negb (op_big o).
+  negb (alias_before stored o).
 (* transparency demanded at exactly the clean lookups *)
 Definition narrow_answer : pred := fun stored o r => negb (step_clean stored o) || transparent_answer stored o r.
 
 (* the known finding a failing implementation answer falls under: every lookup
-   whose answer is not transparent must be explained by finding 0, 1 or 2 at THAT
-   lookup; the number reported is the one of the first such lookup *)
+   whose answer is not transparent must be explained by finding 0 at THAT lookup.
+   (Findings 1 and 2 — minimum size / slice offset from 2^63 on — are repaired:
+   the numbers 1 and 2 are no longer emitted and are not reused.) *)
 Fixpoint classify (stored : list (fileid * bytes)) (ops : list op) (impl : list bytes) (acc : option N) : option (option N) :=
   match ops, impl with
   | o :: ops', r :: impl' =>
       if is_lookup o && negb (transparent_answer stored o r) then
         if alias_answer stored o r then
           classify (remember stored o) ops' impl' (match acc with None => Some 0 | _ => acc end)
-        else if big_answer stored o r then
-          classify (remember stored o) ops' impl' (match acc with None => Some 1 | _ => acc end)
-        else if wild_answer stored o r then
-          classify (remember stored o) ops' impl' (match acc with None => Some 2 | _ => acc end)
         else None
       else classify (remember stored o) ops' impl' acc
   | _, _ => Some acc
@@ -498,4 +419,3 @@ Definition fids_of (ops : list op) : list fileid :=
   fold_right (fun o acc => match op_fid o with Some f => f :: acc | None => acc end) [] ops.
 Definition keys_unique (ops : list op) : bool :=
   let fs := fids_of ops in forallb (fun a => forallb (fun b => negb (key_clash a b)) fs) fs.
-Definition no_big (ops : list op) : bool := forallb (fun o => negb (op_big o)) ops.
